@@ -217,6 +217,7 @@ package mongodb
 //@   props C17
 //@   requires ctx != nil
 //@   checks[clients-of-the-collection-only] result == nil ==> lastCmd(old(its.clients), "DeleteMany", "colNum", collectionNum) && G.qCount == old(G.qCount) + 1
+//@   checks[no-command-to-another-collection] forall c *mongo.Collection :: c != old(its.clients) ==> sel(G.cmdKind, c) == old(sel(G.cmdKind, c)) && sel(G.cmdFilter, c) == old(sel(G.cmdFilter, c))
 //@   checks[database-error-is-reported] G.qErr != nil ==> result != nil
 //@   modifies alloc, G:qKind, G:qColl, G:qFilter, G:qCount, G:qErr, G:cmdKind, G:cmdFilter
 
@@ -241,3 +242,14 @@ package mongodb
 //@   checks[returns-the-incremented-value] G.qReturnAfter
 //@   checks[database-error-is-reported] dbErr() ==> result1 != nil
 //@   modifies alloc, G:qKind, G:qColl, G:qFilter, G:qCount, G:qErr, G:qUpsert, G:qReturnAfter, map[string]interface{}
+
+// purgeAllDocumentsOfCollectionNum (the body of a collection reset): the four kinds of documents of THAT collection
+// number are deleted — operations, snapshots, datatypes, clients — and a failure of any step is reported.
+//@ func (*MongoCollections).purgeAllDocumentsOfCollectionNum
+//@   trusted MongoDB DeleteMany / DeleteOne semantics
+//@   mode math
+//@   props C17
+//@   requires ctx != nil && its.operations != its.snapshots && its.operations != its.datatypes && its.snapshots != its.datatypes && its.clients != its.operations && its.clients != its.snapshots && its.clients != its.datatypes && its.collections != its.operations && its.collections != its.snapshots && its.collections != its.datatypes && its.collections != its.clients
+//@   checks[all-four-kinds-of-that-collection] result == nil ==> lastCmd(old(its.operations), "DeleteMany", "colNum", collectionNum) && lastCmd(old(its.snapshots), "DeleteMany", "colNum", collectionNum) && lastCmd(old(its.datatypes), "DeleteMany", "colNum", collectionNum) && lastCmd(old(its.clients), "DeleteMany", "colNum", collectionNum)
+//@   checks[database-error-is-reported] G.qErr != nil ==> result != nil
+//@   modifies alloc, G:qKind, G:qColl, G:qFilter, G:qCount, G:qErr, G:cmdKind, G:cmdFilter
